@@ -43,7 +43,8 @@ for line in src:
             in_clause = False
             def tagone(mm):
                 t = mm.group(1)
-                return '"' + (t if t.startswith("#aux ") or keep.search(t) else "#aux " + t) + '"'
+                base = t[5:] if t.startswith("#aux ") else t
+                return '"' + (base if keep.search(base) else "#aux " + base) + '"'
             line = f"{m.group(1)} = [" + re.sub(r'"((?:[^"\\]|\\.)*)"', tagone, tail)
         res.append(line); continue
     if in_clause:
@@ -51,8 +52,9 @@ for line in src:
             in_clause = False
         else:
             mm = re.match(r'(\s*)"((?:[^"\\]|\\.)*)"(,?)\s*$', line)
-            if mm and not mm.group(2).startswith("#aux ") and not keep.search(mm.group(2)):
-                line = f'{mm.group(1)}"#aux {mm.group(2)}"{mm.group(3)}'
+            if mm:
+                cbase = mm.group(2)[5:] if mm.group(2).startswith("#aux ") else mm.group(2)
+                line = f'{mm.group(1)}"{cbase if keep.search(cbase) else "#aux " + cbase}"{mm.group(3)}'
     res.append(line)
 open(out, "w").write("\n".join(res))
 print(f"derived {out} from {base}")
